@@ -337,7 +337,8 @@ func (f *FailoverOf[V]) doBuild(
 		}
 
 		if f.config.FailedUpdateTTL > -1 {
-			writeErr := f.Errors.Write(ctx, key, err)
+			// Failure is remembered for FailedUpdateTTL, TTL of caller context is meant for the value.
+			writeErr := f.Errors.Write(WithTTL(ctx, DefaultTTL, false), key, err)
 			if writeErr != nil && f.logError != nil {
 				f.logError(ctx, "failed to cache update failure",
 					"error", writeErr,
